@@ -351,10 +351,21 @@ def playback_tests(out):
     return res
 
 
-def concrete_playback(scratch, kani_dir, h, logdir, timeout_s=600):
+def concrete_playback(scratch, kani_dir, h, logdir, timeout_s=600, failed_descs=None):
     """Ask CBMC for a concrete counterexample, turn it into a #[test] inside the scratch copy of the
     harness file and run it natively against the real function bodies."""
     info = {"harness": h["id"], "reproduced": False, "test_src": None, "native_output": None}
+    # A harness that runs under #[kani::stub] cannot be replayed natively: the stub is only applied by kani-compiler,
+    # the native test would exercise different code and any panic it produced would prove nothing.
+    try:
+        src = open(os.path.join(kani_dir, h["file"])).read()
+        k = src.find("fn %s(" % h["id"])
+        head = src[max(0, src.rfind("@harness", 0, k)):k] if k >= 0 else ""
+        if "kani::stub" in head:
+            info["native_output"] = "harness uses #[kani::stub]: native replay would run different code; not attempted"
+            return info
+    except OSError:
+        pass
     cmd = ["cargo", "kani"] + KANI_FLAGS + ["--exact", "--harness", h["path"], "-Z", "concrete-playback",
                                             "--concrete-playback=print"]
     try:
@@ -396,5 +407,11 @@ def concrete_playback(scratch, kani_dir, h, logdir, timeout_s=600):
         open(hp, "w").write(text)
     open(os.path.join(logdir, h["id"] + ".playback-run.log"), "w").write(out)
     info["native_output"] = out[-6000:]
-    info["reproduced"] = bool(re.search(r"test result: FAILED|panicked at", out)) and "error: could not compile" not in out
+    panicked = bool(re.search(r"test result: FAILED|panicked at", out)) and "error: could not compile" not in out
+    # a labelled obligation counts as reproduced only if the native panic carries that label (otherwise the native run
+    # failed for another reason); implicit checks (overflow, unwrap, index, assert! of the real body) accept any panic
+    labels = [c for c in (failed_descs or []) if c in h["obligations"]]
+    if labels:
+        panicked = panicked and any(l in out for l in labels)
+    info["reproduced"] = panicked
     return info
